@@ -11,13 +11,13 @@ import (
 
 var (
 	kindPool    = []string{"user", "org", "device"}
-	clauseKinds = []string{"", "", "user", "org", "device", "other"}
+	clauseKinds = []string{"", "", "user", "org", "device", "other", "User"}
 	keyPool     = []string{"a", "b", "c", "u1", "u2", "k/1", "ключ", "key.with.dots", strings.Repeat("L", 150),
 		"ctl\x01\x1b\x7f", "q\"uo\\te\n\t", "tag\U000E0001\u2028", "nul\x00mid", "100%-off %d %s %v%!"}
 	attrNames   = []string{"a", "b", "email", "n", "s", "arr", "obj", "/a~b", "a/b", "d", "v"}
 	segKeyPool  = []string{"s0", "s1", "beta-10%-of-users%s", "s3", "s4", "s5", "s2"}
 	flagKeyPool = []string{"f0", "checkout-50%-discount%d", "f2", "f3", "f4", "f5", "f6", "f1"}
-	saltPool    = []string{"", "salt", "s2", strings.Repeat("S", 120)}
+	saltPool    = []string{"", "salt", "s2", strings.Repeat("S", 120), "sa.lt", "соль", "s\x00t", "%d.%s"}
 	dateStrs    = []string{"2020-01-01T00:00:00Z", "2020-01-01T00:00:00.5Z", "2019-12-31T23:00:00-01:00", "1970-01-01T00:00:00Z", "0001-01-01T00:00:00Z", "9999-12-31T23:59:59.999999999Z", "2020-02-31T00:00:00Z", "2020-01-01t00:00:00z", "2020-01-01T0:00:00Z", "2020-01-01", "not a date", "2020-01-01T00:00:00+99:59",
 		"2020-00-10T00:00:00Z", "2020-13-10T00:00:00Z", "2020-01-00T00:00:00Z", "2020-01-32T00:00:00Z", "2020-01-01T24:00:00Z",
 		"2020-01-01T23:60:00Z", "2020-01-01T23:59:60Z", "2020-01-01T23:59:61Z", "2020-01-01T00:00:00+01:60", "2020-01-01T00:00:00-24:00", "2020-01-01T00:00:00.Z",
@@ -325,8 +325,14 @@ func (g *gen) clause(segKeys []string) WClause {
 		if ck != "" {
 			c.Attr = mkRef("ref", "kind")
 		}
-		c.Op = pick(r, []string{"in", "in", "startsWith", "matches"})
-		c.Vals = []JV{jStr(pick(r, []string{"user", "org", "device", "multi", "u", "^o"}))}
+		c.Op = pick(r, []string{"in", "in", "startsWith", "matches", "endsWith", "contains", "lessThan", "semVerEqual"})
+		c.Vals = []JV{}
+		for i, n := 0, 1+r.intn(3); i < n; i++ {
+			c.Vals = append(c.Vals, jStr(pick(r, []string{"user", "org", "device", "multi", "u", "^o", "User", ""})))
+		}
+		if r.chance(1, 8) {
+			c.Vals = append(c.Vals, g.value(0))
+		}
 		return c
 	}
 	c.Vals = g.clauseValues(c.Op)
@@ -559,7 +565,7 @@ func (g *gen) segment(key string, segKeys []string) WSegment {
 			rule.Clauses = append(rule.Clauses, g.clause(segKeys))
 		}
 		if r.chance(2, 5) {
-			rule.Weight = ip(pick(r, []int{0, 1, 50000, 99999, 100000, 100001, -5, 30000, 70000}))
+			rule.Weight = ip(pick(r, []int{0, 1, 50000, 99999, 100000, 100001, -5, 30000, 70000, 1 << 24, 1<<24 + 1, 1 << 40, math.MaxInt64, math.MinInt64}))
 			rule.RCK = pick(r, clauseKinds)
 			if r.chance(1, 3) {
 				rule.By = g.ref(rule.RCK != "")
@@ -588,6 +594,11 @@ func (g *gen) bigSegProvider(ctx *WCtx, segs []WSegment) *WBS {
 		a := WBSAnswer{St: pick(r, statusPool)}
 		if r.chance(2, 3) {
 			a.St = "HEALTHY"
+		}
+		if r.chance(1, 10) {
+			// the status is a string chosen by the application's provider: not necessarily one of
+			// the four constants, possibly empty
+			a.St = pick(r, []string{"", "", "healthy", "BOGUS", "STALE "})
 		}
 		if r.chance(1, 6) {
 			return a // nil membership
